@@ -1,5 +1,8 @@
 """Refresh the hashes of pins/<id>.json from the current /repo (manual step after the models were re-validated against
-changed code, e.g. after a fix: commit).  usage: pin_sources.py [ids…]   (default: every pins/*.json);  --check only reports."""
+changed code, e.g. after a fix: commit).  usage: pin_sources.py [ids…]   (default: every pins/*.json);  --check only reports.
+Transcribed and traversed items are treated alike (the hash of every listed item); the SET of traversed items is re-measured by
+py/tools/pin_traversed.py — run it after this refresh when a fix added, removed or renamed functions / module-level names, or
+re-routed calls (a traversed item that vanished is reported NOT FOUND here and dropped there)."""
 import glob, json, os, subprocess, sys
 sys.path.insert(0, os.path.join(os.path.dirname(os.path.abspath(__file__)), ".."))
 from vlib import pins
@@ -12,16 +15,20 @@ bad = 0
 for pid in ids:
     d = pins.load(pid)
     changed = 0
+    trees = {}
     for it in d.get("items", []):
-        h = pins.item_hash(REPO, it["file"], it["name"])
+        h = pins.item_hash(REPO, it["file"], it["name"], trees)
         if h is None:
-            print(f"  {pid}: NOT FOUND {it['file']}::{it['name']}"); bad += 1
+            print(f"  {pid}: NOT FOUND ({pins.kind_of(it)}) {it['file']}::{it['name']}"); bad += 1
         elif h != it.get("hash"):
             changed += 1
+            if only_check:
+                print(f"  {pid}: differs ({pins.kind_of(it)}) {it['file']}::{it['name']}")
             if not only_check:
                 it["hash"] = h
     if not only_check:
         d["pinned_at"] = head
         json.dump(d, open(pins.pin_file(pid), "w"), indent=1)
-    print(f"{pid}: {len(d.get('items', []))} items, {changed} {'differ' if only_check else 'refreshed'}")
+    n_tv = sum(1 for it in d.get("items", []) if pins.kind_of(it) == "traversed")
+    print(f"{pid}: {len(d.get('items', [])) - n_tv} transcribed + {n_tv} traversed items, {changed} {'differ' if only_check else 'refreshed'}")
 sys.exit(1 if bad else 0)
